@@ -4,13 +4,14 @@ use crate::support::*;
 use educe::Educe;
 use core::cmp::Ordering;
 #[derive(Educe)]
-#[educe(Eq, Ord, PartialEq)]
-pub enum T { Unit {  }, A }
-impl PartialOrd for T { fn partial_cmp(&self, o: &Self) -> Option<Ordering> { Some(::core::cmp::Ord::cmp(self, o)) } }
-pub fn values() -> Vec<T> { vec![T::Unit {  }, T::A] }
-pub fn show(x: &T) -> String { #[allow(unused_variables)] match x { T::Unit {  } => format!("Unit()"), T::A => format!("A()") } }
-pub fn o_disc(x: &T) -> i128 { match x { T::Unit {  } => 0, T::A => 1 } }
-pub fn o_cmp(a: &T, b: &T) -> Ordering { match (a, b) { (T::Unit {  }, T::Unit {  }) => {  Ordering::Equal }, (T::A, T::A) => {  Ordering::Equal }, _ => o_disc(a).cmp(&o_disc(b)) } }
+#[repr(i64)]
+#[educe(Eq, PartialOrd, PartialEq)]
+pub enum T { C(#[educe(PartialOrd(rank = 4i64))] Option<u8>, char), B = 3, A(char) = 128, Unit(::core::num::NonZeroU8, #[educe(PartialOrd(rank(5)))] u8) }
+
+pub fn values() -> Vec<T> { vec![T::C(None, 'a'), T::C(None, 'z'), T::C(Some(0), 'a'), T::C(Some(0), 'z'), T::C(Some(255), 'a'), T::C(Some(255), 'z'), T::B, T::A('a'), T::A('z'), T::Unit(::core::num::NonZeroU8::new(1).unwrap(), 0), T::Unit(::core::num::NonZeroU8::new(1).unwrap(), 100), T::Unit(::core::num::NonZeroU8::new(1).unwrap(), 200), T::Unit(::core::num::NonZeroU8::new(200).unwrap(), 0), T::Unit(::core::num::NonZeroU8::new(200).unwrap(), 100), T::Unit(::core::num::NonZeroU8::new(200).unwrap(), 200)] }
+pub fn show(x: &T) -> String { #[allow(unused_variables)] match x { T::C(p0, p1) => format!("C({},{})", sv(p0), sv(p1)), T::B => format!("B()"), T::A(p0) => format!("A({})", sv(p0)), T::Unit(p0, p1) => format!("Unit({},{})", sv(p0), sv(p1)) } }
+pub fn o_disc(x: &T) -> i128 { match x { T::C(_, _) => 0, T::B => 3, T::A(_) => 128, T::Unit(_, _) => 129 } }
+pub fn o_pcmp(a: &T, b: &T) -> Option<Ordering> { match (a, b) { (T::C(a0, a1), T::C(b0, b1)) => { match ::core::cmp::PartialOrd::partial_cmp(a1, b1) { Some(Ordering::Equal) => (), x => return x } match ::core::cmp::PartialOrd::partial_cmp(a0, b0) { Some(Ordering::Equal) => (), x => return x } Some(Ordering::Equal) }, (T::B, T::B) => {  Some(Ordering::Equal) }, (T::A(a0), T::A(b0)) => { match ::core::cmp::PartialOrd::partial_cmp(a0, b0) { Some(Ordering::Equal) => (), x => return x } Some(Ordering::Equal) }, (T::Unit(a0, a1), T::Unit(b0, b1)) => { match ::core::cmp::PartialOrd::partial_cmp(a0, b0) { Some(Ordering::Equal) => (), x => return x } match ::core::cmp::PartialOrd::partial_cmp(a1, b1) { Some(Ordering::Equal) => (), x => return x } Some(Ordering::Equal) }, _ => Some(o_disc(a).cmp(&o_disc(b))) } }
 #[repr(C)] pub struct Wrap { pub pre: u8, pub x: T, pub post: [u8; 9] }
 pub fn wrap(i: usize, n: u8) -> Wrap { Wrap { pre: n, x: values().swap_remove(i), post: [n; 9] } }
-pub fn run(out: &mut Out) { let vs = values(); for (i, a) in vs.iter().enumerate() { for (j, b) in vs.iter().enumerate() { let e = o_cmp(a, b); let g = ::core::cmp::Ord::cmp(a, b); out.check(g == e, "ordlayout_11", "cmp", || format!("cmp({}, {}) = {:?} expected {:?}", show(a), show(b), g, e)); for n in [0u8, 1, 0x7f, 0x80, 0xff] { let wa = wrap(i, n); let wb = wrap(j, !n); let g = ::core::cmp::Ord::cmp(&wa.x, &wb.x); let e = o_cmp(a, b); out.check(g == e, "ordlayout_11", "cmp_neighbours", || format!("cmp({}, {}) with neighbour bytes {} = {:?} expected {:?}", show(a), show(b), n, g, e)); } } } }
+pub fn run(out: &mut Out) { let vs = values(); for (i, a) in vs.iter().enumerate() { for (j, b) in vs.iter().enumerate() { let e = o_pcmp(a, b); let g = ::core::cmp::PartialOrd::partial_cmp(a, b); out.check(g == e, "ordlayout_11", "partial_cmp", || format!("partial_cmp({}, {}) = {:?} expected {:?}", show(a), show(b), g, e)); for n in [0u8, 1, 0x7f, 0x80, 0xff] { let wa = wrap(i, n); let wb = wrap(j, !n); let g = ::core::cmp::PartialOrd::partial_cmp(&wa.x, &wb.x); let e = o_pcmp(a, b); out.check(g == e, "ordlayout_11", "cmp_neighbours", || format!("cmp({}, {}) with neighbour bytes {} = {:?} expected {:?}", show(a), show(b), n, g, e)); } } } }
